@@ -161,3 +161,10 @@ mod future {
         }
     }
 }
+
+/// Verification hook (feature `verif-hooks`, test builds only): replay tests kept in the verification
+/// directory are compiled inside this module so that they can reach crate-private items.
+#[cfg(all(test, feature = "client", feature = "mocks", feature = "verif-hooks"))]
+mod verif_replays {
+    include!(concat!(env!("VERIF_DIR"), "/replays/timeout.rs"));
+}
